@@ -16,7 +16,7 @@ RULE = ("one evaluation = one (entity class, stanza): the stanza is either the d
 ASSUMPTIONS = ["'documented shape' = the class's own test fixture / docstring as transcribed in vf/catalogue.py; enumeration-valued attributes keep the documented literal",
                "protobuf payloads inside <proto> are compared field by field on the fields the sender set (C10's comparator), not byte by byte",
                "a catalogue disagreement is reviewed as a possible transcription error before it is called a defect"]
-REQUIRED = ["fixture_classes", "hand_classes", "receive_roundtrips", "send_roundtrips", "values_redrawn", "lists_varied", "normalisations", "outgoing_classes"]
+REQUIRED = ["fixture_classes", "hand_classes", "receive_roundtrips", "send_roundtrips", "values_redrawn", "lists_varied", "normalisations", "outgoing_classes", "keys_mixed_cases", "keys_mixed_ok", "optional_variants", "optional_ok"]
 TIMEOUT = {"quick": 600, "thorough": 7200}
 
 
@@ -249,6 +249,59 @@ def optional_probe(acc, cls, name, tree, r, codec):
             acc.count("optional_ok")
 
 
+def keys_result_mixed(acc, cls, name, tree, r):
+    """Key fetch results for several users of which some lack a part (no one-time key left, no signed key ...): the complete
+    users must come through unchanged whatever their neighbours look like, the incomplete ones are reported as errors."""
+    tag, attrs, children, data = tree
+    lst = [c for c in children if c[0] == "list"]
+    if not lst or not lst[0][2]:
+        return
+    proto = lst[0][2][0]
+    n = r.randint(2, 5)
+    users, complete, incomplete = [], [], []
+    for i in range(n):
+        stats = {}
+        u = catalogue.mutate(r, proto, stats)
+        jid = gen.jid(r)
+        kids = list(u[2])
+        if r.random() < 0.45:
+            drop = r.choice(["key", "skey", "registration", "identity"])
+            kids = [k for k in kids if k[0] != drop]
+            incomplete.append(jid)
+        else:
+            complete.append(jid)
+        users.append((u[0], dict(u[1], jid=jid), kids, u[3]))
+    st = (tag, attrs, [("list", lst[0][1], users, None)] + [c for c in children if c[0] != "list"], data)
+    w = {"class": cls.__name__, "shape": name, "origin": "mixed key result", "complete": complete, "incomplete": incomplete, "stanza": treeeq.describe(st, limit=6)}
+    acc.count("keys_mixed_cases")
+    acc.case(["keysmixed", repr(st)[:3000]], nontrivial=bool(incomplete) and bool(complete))
+    try:
+        e = cls.fromProtocolTreeNode(treeeq.to_node(st))
+        back = treeeq.to_tuple(e.toProtocolTreeNode())
+    except Exception as ex:  # noqa
+        acc.violation("%s:mixed:raises:%s" % (cls.__name__, type(ex).__name__), "a key result with incomplete users cannot be parsed/serialised: %r" % (ex,), w)
+        return
+    errs = sorted(e.getErrors().keys()) if hasattr(e, "getErrors") else None
+    if errs is not None and errs != sorted(incomplete):
+        acc.violation("%s:mixed:error-set" % cls.__name__, "users reported as incomplete: %s, users that are incomplete: %s" % (errs, sorted(incomplete)), w)
+        return
+    got = {}
+    for c in back[2]:
+        if c[0] == "list":
+            for u in c[2]:
+                got[u[1].get("jid")] = u
+    want = {u[1]["jid"]: u for u in users if u[1]["jid"] in complete}
+    if sorted(got) != sorted(want):
+        acc.violation("%s:mixed:complete-users-lost" % cls.__name__, "complete users in the stanza: %s, users the entity carries: %s" % (sorted(want), sorted(got)), w)
+        return
+    for j in want:
+        d = treeeq.diff(want[j], got[j], by_value=True)
+        if d:
+            acc.violation("%s:mixed:user-differs" % cls.__name__, "a complete user next to incomplete ones changes in the round trip: %s" % d, w)
+            return
+    acc.count("keys_mixed_ok")
+
+
 def diffkey(d):
     """Mechanism part of a treeeq diff: location without values."""
     loc = d.split(": ")[0]
@@ -434,6 +487,8 @@ def run(spec, acc):
             judge_receive(acc, cls, name, t2, "fixture-mutated", True, codec)
             if k < spec.get("opt", 3):
                 optional_probe(acc, cls, name, t2, r, codec)
+            if cls.__name__ == "ResultGetKeysIqProtocolEntity":
+                keys_result_mixed(acc, cls, name, tree, r)
         if i < nsh * 2:
             acc.sample({"class": cls.__name__, "fixture": name, "stanza": treeeq.describe(tree, 4)})
     for i, name in enumerate(sorted(catalogue.HAND)):
